@@ -107,6 +107,19 @@ impl Frame {
     }
 }
 
+#[cfg(feature = "verif")]
+impl Frame {
+    /// Verification hook: index in the process's locals where this frame's locals begin.
+    pub fn verif_locals_base(&self) -> usize {
+        self.locals_base
+    }
+
+    /// Verification hook: number of captures at the start of this frame's locals.
+    pub fn verif_captures_count(&self) -> usize {
+        self.captures_count
+    }
+}
+
 #[derive(Debug, Clone)]
 pub struct SelectState {
     /// The frame index where the select instruction is
